@@ -128,21 +128,59 @@ pub fn check(case: &Case, l: &mut Local) -> Verdict {
     Verdict::Pass { nontrivial: any_match && t.split }
 }
 
+fn gen_small(src: &mut Src, _t: Tier) -> Case {
+    let v = super::c01::small_slice(true);
+    v[(src.raw() as usize).min(v.len() - 1)].clone()
+}
+
+/// the bounded-exhaustive small-pattern slice of C01, here judged by executor agreement on full match sequences
+fn check_small(case: &Case, l: &mut Local) -> Verdict {
+    static HAYS: std::sync::OnceLock<Vec<String>> = std::sync::OnceLock::new();
+    let hays = HAYS.get_or_init(|| all_strings(&[0x61, 0x62], 4));
+    let fl = Fl::parse(&case.flags);
+    let mut any = false;
+    for no_opt in [false, true] {
+        let re = match compile(&case.pat, fl, no_opt) {
+            Ok(r) => r,
+            Err(_) => return Verdict::Skip("rejected"),
+        };
+        for h in hays {
+            for enc in [Enc::Utf8, Enc::Ascii] {
+                let a = find_all(&re, Engine::Bt, enc, h, 0, 8, 2_000_000);
+                let b = find_all(&re, Engine::Pike, enc, h, 0, 8, 2_000_000);
+                if a.is_cut() || b.is_cut() {
+                    continue;
+                }
+                if a != b {
+                    return Verdict::Fail(format!("executors differ on \"{}\" ({:?}, {}): backtrack={} pikevm={}", h, enc, if no_opt { "no_opt" } else { "opt" }, a.show(), b.show()));
+                }
+                if let Out::Ms(v) = &a {
+                    any |= !v.is_empty();
+                }
+            }
+        }
+    }
+    l.add("pattern_haystack_pairs", 4 * hays.len() as u64);
+    Verdict::Pass { nontrivial: any }
+}
+
+pub static V_SMALL: Variant = Variant { name: "exhaustive_small_patterns", choice_len: 1, gen: gen_small, check: check_small };
 pub static V_GENERAL: Variant = Variant { name: "general", choice_len: 400, gen, check };
 pub static V_ASCII: Variant = Variant { name: "ascii_hay", choice_len: 400, gen: gen_ascii, check };
 pub static V_SCM: Variant = Variant { name: "single_char_loops", choice_len: 300, gen: gen_scm, check };
 
 pub fn variants() -> Vec<&'static Variant> {
-    vec![&V_GENERAL, &V_ASCII, &V_SCM]
+    vec![&V_GENERAL, &V_ASCII, &V_SCM, &V_SMALL]
 }
 
 pub fn run(ctx: &Ctx) -> i32 {
+    ctx.run_list(&V_SMALL, super::c01::small_slice(true));
     ctx.run_variant(&V_GENERAL, ctx.scale(600_000, 10_000_000));
     ctx.run_variant(&V_ASCII, ctx.scale(300_000, 4_000_000));
     ctx.run_variant(&V_SCM, ctx.scale(300_000, 4_000_000));
     ctx.finish(
         "exploration",
-        "random ES patterns (valid by construction, all 24 flag sets, themed alphabets) x haystacks x start offsets; both pipelines (opt/no_opt), UTF-8 and (on ASCII haystacks) ASCII entry points; oracle = differential between the two executors on the same compiled program. Non-trivial = at least one match found and the pattern contains a split (alternation or quantifier); distinct by hash of (pattern, flags, haystack, start).",
+        "(bounded-exhaustive) the 141k patterns of the small grammar of C01 x all haystacks in {a,b}^<=4 x both pipelines x UTF-8/ASCII, full match sequences; plus random ES patterns (valid by construction, all 24 flag sets, themed alphabets) x haystacks x start offsets; both pipelines (opt/no_opt), UTF-8 and (on ASCII haystacks) ASCII entry points; oracle = differential between the two executors on the same compiled program. Non-trivial = at least one match found and the pattern contains a split (alternation or quantifier); distinct by hash of (pattern, flags, haystack, start).",
         &["fuel hook cuts runaway searches (counted, never judged)", "both executors share parser/optimizer/emitter: this check says nothing about agreement with ECMAScript (C01)"],
     )
 }
